@@ -137,6 +137,8 @@ def transformations(sig, rng, full):
     if n >= 2:
         slots = list(range(1, n))  # insert before sample index k (1..n-1): never first/last
         picks = [[k] for k in slots] + [[k, m] for k in slots for m in slots if k <= m]
+        # three and four NaNs clustered in front of one sample (k, k, k), or spread with one value in between (k, k+1, k+1)
+        picks += [[k, k, k] for k in slots] + [[k, k + 1, k + 1] for k in slots if k + 1 in slots] + [[k, k, k, k] for k in slots[:2]]
         if not full and len(picks) > 4:
             picks = rng.sample(picks, 4)
         for pk in picks:
@@ -240,6 +242,25 @@ def _replay_blocks(args):
     return n, nontriv, drift[:5], viol[:5], samples
 
 
+def _replay_rev(blocks):
+    """Reversal-only signals (up to 8 samples over -2..2): negation symmetry of all three detectors, one piece."""
+    n, nontriv, viol = 0, [], []
+    for b in blocks:
+        st = parse_state(b.strip())
+        sig = list(st['fed'])
+        if len(sig) < 6:
+            continue
+        for kind in '34F':
+            base = obs(kind, fl(sig))
+            t = obs(kind, fl([-x for x in sig]))
+            n += 1
+            if 'raised' in base or 'raised' in t or not same(map_vals(kind, base, lambda x: -x), t):
+                viol.append(('C03 relation broken (neg): negated values, same indices', {'detector': kind, 'signal': sig, 'transformation': {'op': 'neg'}}, base, t))
+        if len(st['oF']['cyc']) >= 2:
+            nontriv.append(tuple(sig))
+    return n, nontriv, viol[:5]
+
+
 def run(chk):
     quick = chk.tier == 'quick'
     cfg = os.path.join(SPEC, 'rainflow', 'MC_Symmetry_quick.cfg' if quick else 'MC_Symmetry_thorough.cfg')
@@ -264,6 +285,24 @@ def run(chk):
         chk.cov['traces_validated_against_impl'] += total
         chk.evals(total)
         chk.part('replay', pairs_of_runs=total)
+        os.remove(res.dump_path)
+    # reversal-only signals (longer than the full-alphabet instance reaches): negation symmetry of every detector
+    rcfg = os.path.join(SPEC, 'rainflow', 'MC_OnePiece_rev2_quick.cfg' if quick else 'MC_OnePiece_rev2_thorough.cfg')
+    res = tlc.run(os.path.join(SPEC, 'rainflow', 'MC_OnePiece.tla'), rcfg, dump=True, timeout=3000, heap='12g')
+    chk.tlc(os.path.basename(rcfg), res, 'strictly alternating signals over -2..2 (the alphabet is symmetric: the mirror image of every state is a state); one-piece invariants incl. FKM = HCM')
+    if res.violated:
+        chk.machinery.append('model invariant %s violated at %s' % (res.violated, res.trace[-1:]))
+    if res.dump_path and os.path.exists(res.dump_path):
+        total = 0
+        for n, nontriv, viol in par.pmap(_replay_rev, par.split_dump(res.dump_path, 64), chunksize=1):
+            total += n
+            for k in nontriv:
+                chk.nontrivial(k)
+            for what, case, exp, got in viol:
+                chk.violation(what, case, exp, got, part='replay_reversals')
+        chk.cov['traces_validated_against_impl'] += total
+        chk.evals(total)
+        chk.part('replay_reversals', pairs_of_runs=total)
         os.remove(res.dump_path)
     # (C) recorded pairs on longer random signals, relation decided by the TLC trace specification
     rng = random.Random(chk.seed * 31337 + 3)
